@@ -166,8 +166,14 @@ def run(ctx) -> None:
                   f"`{norm_text(s)}` indexes the array with items that were not validated against ensemble_shape "
                   "(base axes can be indexed)", key_detail="items")
     sq = repo.method(ARR, "ArrayObject", "squeeze")
-    shp = [st for st in walk_no_nested(sq.node) if isinstance(st, ast.Assign) and isinstance(st.targets[0], ast.Name)
-           and st.targets[0].id == "shape"]
+    # the shape examined for length-one axes: the iterable of the enumerate() inside the `squeezed` computation
+    shp = []
+    for c in walk_no_nested(sq.node):
+        if isinstance(c, ast.Call) and call_name(c) == "enumerate" and c.args and isinstance(c.args[0], ast.Name):
+            defs = [st for st in walk_no_nested(sq.node) if isinstance(st, ast.Assign) and isinstance(
+                st.targets[0], ast.Name) and st.targets[0].id == c.args[0].id]
+            if len(defs) == 1 and "shape" in norm_text(defs[0].value):
+                shp = defs
     ok = len(shp) == 1 and norm_text(shp[0].value).replace(" ", "") in (
         "self.shape[:-len(self.base_shape)]", "self.ensemble_shape")
     ctx.check(ok, "R-BASEGUARD", f"{sq.qualname}:ensemble-only", sq.where,
@@ -304,7 +310,7 @@ def run(ctx) -> None:
     # concatenate
     cc = repo.function(ARR, "concatenate")
     calls = [c for c in walk_no_nested(cc.node) if isinstance(c, ast.Call) and (call_name(c) or "").endswith(".concatenate")
-             and dotted(c.func.value) in ("da", "xp", "np")]
+             and (dotted(c.func.value) in ("da", "xp", "np", "cp") or (dotted(c.func.value) or "").startswith("xp"))]
     ctx.require(len(calls) == 2, "concatenate: array operations not found")
     ax = {norm_text(kwarg(c, "axis", 1)) for c in calls}
     subs_ = [s for s in walk_no_nested(cc.node) if isinstance(s, ast.Subscript) and "axes_metadata" in norm_text(s.value)]
